@@ -138,15 +138,12 @@ Lemma alloc_fresh_shape k v o n :
   (1 <= o -> length (rderiv r2) = n) /\
   (2 <= o -> length (rhess r2) = n /\ forall i, i < n -> length (nth i (rhess r2) []) = n).
 Proof.
-  unfold alloc; simpl. destruct (Nat.eqb 0 n) eqn:E0; simpl.
-  - apply Nat.eqb_eq in E0. subst n. rewrite Nat.eqb_refl. simpl. repeat split; auto; intros; lia.
-  - apply Nat.eqb_neq in E0.
-    split; [reflexivity|]. split; [reflexivity|]. split; [reflexivity|]. split; [reflexivity|]. split.
-    + intros O1. assert (E1 : (1 <=? o) = true) by (apply Nat.leb_le; lia). rewrite E1. apply repeat_length.
-    + intros O2. assert (E1 : (1 <=? o) = true) by (apply Nat.leb_le; lia).
-      assert (E2 : (2 <=? o) = true) by (apply Nat.leb_le; lia). rewrite E1, E2.
-      split; [apply repeat_length|]. intros i Li. rewrite nth_repeat.
-      assert (Lb : (i <? n) = true) by (apply Nat.ltb_lt; lia). rewrite Lb. apply repeat_length.
+  unfold alloc. destruct n as [|n]; destruct o as [|[|o]]; simpl; rewrite ?Nat.eqb_refl; simpl;
+    repeat split; intros; try lia; try apply repeat_length.
+  all: match goal with |- length (nth ?i (_ :: repeat ?r ?m) []) = _ =>
+         destruct i as [|i]; [simpl; f_equal; apply repeat_length|];
+         simpl; rewrite nth_repeat; assert (Lb : (i <? m) = true) by (apply Nat.ltb_lt; lia); rewrite Lb;
+         simpl; f_equal; apply repeat_length end.
 Qed.
 
 Lemma clone_reg_eq c a (s : St) : a <> c ->
